@@ -105,11 +105,20 @@ def prepare_inc(prop, unit, tier):
     os.makedirs(inc)
     srcdir = os.path.join(VERIF, unit["harness_src"]) if unit.get("harness_src") else None
     anns, srcs = [], []
+    instances = None
+    if srcdir and os.path.exists(os.path.join(srcdir, "gen.py")):
+        import importlib.util
+        spec = importlib.util.spec_from_file_location("gen_" + prop, os.path.join(srcdir, "gen.py"))
+        mod = importlib.util.module_from_spec(spec); spec.loader.exec_module(mod)
+        instances = mod.instances(tier)
+        srcs.append(os.path.join(srcdir, "gen.py"))
     for m in MODULES:
         dst = os.path.join(inc, m + ".rs")
         src = os.path.join(srcdir, m + ".rs") if srcdir else None
         if src and os.path.exists(src):
             txt = preprocess_tier(open(src).read(), tier)
+            if instances is not None:
+                txt = txt.replace("/*INSTANCES*/", instances)
             anns += parse_annotations(txt)
             srcs.append(src)
             open(dst, "w").write(txt)
@@ -180,6 +189,8 @@ def parse_kani(out):
             cur = cur_by_thread.get(m.group(1))
             i += 1
             continue
+        if ln.startswith("Manual Harness Summary") or ln.startswith("Complete - "):
+            cur = None
         if cur is not None:
             cur["raw"].append(ln)
             m = re.search(r"\*\* (\d+) of (\d+) failed", ln)
@@ -238,7 +249,12 @@ def run_kani_unit(prop, unit, tier, report):
     if unit.get("probe") and tier == "thorough" and unit.get("thorough_cfg"):
         env["RUSTFLAGS"] = ""
     cmd = kani_cmd(unit, jobs=unit.get("jobs", NCPU), timeout_s=per_h, extra=extra)
-    if unit.get("harness_prefixes", {}).get(tier):
+    only = os.environ.get("VERIF_ONLY")
+    if only:
+        idx = cmd.index("--output-format")
+        for h in only.split(","):
+            cmd[idx:idx] = ["--harness", h]
+    elif unit.get("harness_prefixes", {}).get(tier):
         # substring filters (no --exact)
         idx = cmd.index("--output-format")
         for h in unit["harness_prefixes"][tier]:
@@ -259,7 +275,7 @@ def run_kani_unit(prop, unit, tier, report):
     if rc == 124:
         report["undecided"].append(f"{unit['name']}: wall timeout after {wall}s")
     minh = unit.get("min_harnesses", {}).get(tier, 1)
-    if len(res) < minh:
+    if len(res) < minh and not only:
         report["undecided"].append(f"{unit['name']}: only {len(res)} harnesses ran, registered minimum is {minh}")
     for name in order:
         r = res[name]
@@ -277,6 +293,22 @@ def run_kani_unit(prop, unit, tier, report):
         if r["status"] is None:
             rec["verdict"] = "undecided"
             rec["why"] = "no verdict (timeout, crash or memory cap): " + " | ".join(x for x in r["raw"][-6:] if x.strip())
+        elif a["kind"] == "panic":
+            # #[kani::should_panic] harness with one MUST-NOT-REACH cover after the call
+            if r["status"] == "SUCCESSFUL" and (r["covers_sat"] or 0) == 0 and r["covers"]:
+                rec["verdict"] = "pass"
+            elif r["status"] == "SUCCESSFUL" and not r["covers"]:
+                rec["verdict"] = "undecided"
+                rec["why"] = "panic harness without MUST-NOT-REACH cover"
+            elif (r["covers_sat"] or 0) > 0:
+                rec["verdict"] = "fail"
+                rec["real_failed"] = [{"description": "the call returned normally for some out-of-range input (MUST-NOT-REACH cover satisfied)", "location": ""}]
+            elif und and not real:
+                rec["verdict"] = "undecided"
+                rec["why"] = "; ".join(fc["description"] for fc in und)
+            else:
+                rec["verdict"] = "fail"
+                rec["real_failed"] = real or [{"description": "expected panic not reached or non-panic failure: " + " ".join(x.strip() for x in r["raw"] if "VERIFICATION" in x or "panic" in x.lower()), "location": ""}]
         elif a["kind"] == "canary":
             if r["status"] == "FAILED" and real:
                 rec["verdict"] = "canary-ok"
